@@ -526,6 +526,14 @@ func SeqLit(s string) *Term {
 }
 func isSeqLit(t *Term) bool { return strings.HasPrefix(t.op, "$seq:") }
 
+// MultiPat groups terms into one multi-pattern (all must match).
+func MultiPat(ts ...*Term) *Term {
+	if len(ts) == 1 {
+		return ts[0]
+	}
+	return mk("$mpat", SBool, ts...)
+}
+
 func Forall(vars []*Term, body *Term, pats ...*Term) *Term { return quant("forall", vars, body, pats) }
 func Exists(vars []*Term, body *Term, pats ...*Term) *Term { return quant("exists", vars, body, pats) }
 
@@ -714,7 +722,16 @@ func printTerm(sb *strings.Builder, t *Term, names map[int]string) {
 		if len(t.pats) > 0 {
 			for _, p := range t.pats {
 				sb.WriteString(" :pattern (")
-				printTerm(sb, p, names)
+				if p.op == "$mpat" {
+					for i, a := range p.args {
+						if i > 0 {
+							sb.WriteString(" ")
+						}
+						printTerm(sb, a, names)
+					}
+				} else {
+					printTerm(sb, p, names)
+				}
 				sb.WriteString(")")
 			}
 			sb.WriteString(")")
